@@ -701,6 +701,15 @@ func doE2EOp(cfg e2eCfg, conn *rpc.Conn, rt rpc.RoundTripper, client *rpc.Client
 		}
 	case "ctx":
 		ctx, cancel := context.WithTimeout(context.Background(), 15*time.Second)
+		if o.ID%3 != 0 {
+			// a caller-supplied reply buffer (C11/C19): large for most calls, sometimes too small.
+			// Whatever lands in it belongs to this caller and is re-hashed after all the traffic.
+			n := 8192
+			if o.ID%3 == 2 {
+				n = 48
+			}
+			ctx = context.WithValue(ctx, rpc.BufferContextKey, make([]byte, n))
+		}
 		switch {
 		case client != nil:
 			err = client.CallWithContext(ctx, o.Method, args, reply)
